@@ -19,6 +19,10 @@ CLAIMED = {
    "TLA+ transcription of the pointer format (spec/Pointer.tla) enumerated completely by TLC; every abstract document rendered to bytes and decoded by the real lfs.DecodePointer; spec verdict vs observed",
    "TLC enumerates every token document within <=1 (quick) / <=2 (thorough) edit operations of the canonical encoding of the base pointers, with the verdict the written specification gives it (must accept / must reject / open), the pointer it denotes and whether it is canonical. The real decoder's answer is compared per document: canonical forms accepted and flagged canonical, documents without a well-formed oid or size rejected, anything accepted is well-formed (64 lower hex, size>=0, unique ascending priorities 0-9), equals what the document denotes, canonical flag == byte equality with the spec's canonical form, Encoded() == that form, decode(encode(p)) == p; seeded random and mutated byte strings check totality (no panic).",
    "Oracle is my TLA+ reading of docs/spec.md; abstract value classes are rendered to one concrete string each; inputs >1024 bytes only in the random part.", "DESIGN.md §5 C07"),
+ "C17": ("exploration",
+   "TLA+ model of the git-credential wire format (spec/CredProto.tla: writer, refusal rule, helper-side reader) checked by TLC; every enumerated credential map pushed through the real creds package with a recording git shim; raw helper stdin compared",
+   "TLC enumerates every credential map with <=1 (quick) / <=2 (thorough) fields carrying a value of length <=2 over {x,=,LF,CR,NUL,space}, both protectProtocol settings and fill/approve/reject, proves on the model that the refusal rule is sufficient (helper parses exactly the supplied pairs) and necessary, and the real code is run on each map: must-refuse maps never reach the helper and yield an error, all others arrive as exactly one k=v line per supplied pair after the capability preamble. username/path cases also go through url.Parse of a percent-encoded URL.",
+   "Helper side = recording shim for `git credential`; values longer than 2 characters and more than 2 hostile fields are outside the bound.", "DESIGN.md §5 C17"),
 }
 
 checks = []
